@@ -356,7 +356,7 @@ package ledger
 //@   note LockLedger on a handle inside a transaction stays inside that transaction (storage/ledger/store.go LockLedger, case bun.Tx): the result must inherit hasTx
 
 //@ func (c *ControllerWithEvents) Commit(ctx context.Context) (err error)
-//@   property C31
+//@   property C07 C31
 //@   modifies published, nCtrlCommit
 //@   ensures (err == nil) == (nCtrlCommit == old(nCtrlCommit) + 1) && (err != nil) == (nCtrlCommit == old(nCtrlCommit))
 //@   ensures err != nil ==> published == old(published)
